@@ -131,7 +131,31 @@ def authCmd : List String → String
   | _ => "bad-op"
 
 structure St where
-  dummy : Nat := 0
+  handles : Handles.St := Handles.init 0
+
+def showLive (l : List (Nat × Bytes)) : String :=
+  let sorted := l.toArray.qsort (fun a b => a.1 < b.1) |>.toList
+  ",".intercalate (sorted.map fun x => s!"{x.1}:{toHex x.2}")
+
+def handlesCmd (st : St) : List String → St × String
+  | ["init", m] => match m.toInt? with
+    | some m => ({ st with handles := Handles.init m }, "ok")
+    | none => (st, "bad-op")
+  | ["alloc", p] => match fromHex p with
+    | some p =>
+      let r := Handles.alloc Gen.defaultMaxHandles Gen.evictDivisor st.handles p
+      ({ st with handles := r.1 }, toString r.2)
+    | none => (st, "bad-op")
+  | ["get", h] => match h.toNat? with
+    | some h => (st, match Handles.get st.handles h with | some p => toHex p | none => "none")
+    | none => (st, "bad-op")
+  | ["release", h] => match h.toNat? with
+    | some h => ({ st with handles := Handles.release st.handles h }, "ok")
+    | none => (st, "bad-op")
+  | ["releaseall"] => ({ st with handles := Handles.releaseAll st.handles }, "ok")
+  | ["count"] => (st, toString st.handles.live.length)
+  | ["dump"] => (st, showLive st.handles.live)
+  | _ => (st, "bad-op")
 
 def step (st : St) (line : String) : St × String :=
   match (line.trimAscii.toString.splitOn " ").filter (fun t => t ≠ "" ∧ ¬ t.startsWith "#") with
@@ -140,6 +164,7 @@ def step (st : St) (line : String) : St × String :=
   | "rm" :: args => (st, rmCmd args)
   | "access" :: args => (st, accessCmd args)
   | "auth" :: args => (st, authCmd args)
+  | "handles" :: args => handlesCmd st args
   | ["reset"] => ({}, "ok")
   | _ => (st, "bad-op")
 
